@@ -39,7 +39,7 @@ ASSUMPTIONS = [
     'row dicts always name the last column (shape is inferred from keys)',
 ]
 ANCHORS = ['Table._to_sparse', 'coo_arrays_to_sparse', 'list_list_to_sparse', 'nparray_to_sparse', 'list_nparray_to_sparse', 'list_sparse_to_sparse', 'list_dict_to_sparse', 'dict_to_sparse', 'Table.from_adjacency', 'parse_uc', '_from_uc', 'errcheck']
-REQUIRED = ['adjacency_ids_starting_with_hash', 'families', 'forms_compared', 'form_dict_unordered',
+REQUIRED = ['form_rows_of_mixed_dtype', 'adjacency_ids_starting_with_hash', 'families', 'forms_compared', 'form_dict_unordered',
             'form_triples_with_zeros', 'form_bool', 'form_int',
             'adjacency_cases', 'uc_cases', 'uc_cli_cases',
             'malformed_duplicate_id', 'malformed_id_count',
@@ -96,6 +96,51 @@ def forms(r, D):
     out['row-dicts'] = rowdicts
     out['sparse-rows'] = lambda: ([sp.csr_matrix(D[i:i + 1, :])
                                    for i in range(n)], {})
+
+    def narrow(row):
+        # the narrowest element type that holds this row exactly
+        if np.all((row == 0) | (row == 1)):
+            return row.astype(bool)
+        if np.all(row == np.floor(row)) and np.all(np.abs(row) < 2 ** 31):
+            return row.astype(np.int32)
+        if np.all(row.astype(np.float32).astype(np.float64) == row):
+            return row.astype(np.float32)
+        return row
+    with np.errstate(all='ignore'):
+        mixed = [narrow(D[i:i + 1, :]) for i in range(n)]
+    if len({m_.dtype for m_ in mixed}) > 1:
+        # rows of one matrix need not share an element type
+        out['sparse-rows-mixed-dtype'] = lambda: (
+            [sp.csr_matrix(m_) for m_ in mixed], {})
+        out['row-arrays-mixed-dtype'] = lambda: (
+            [m_.reshape(-1) for m_ in mixed], {})
+    def dup(fmt):
+        # a compressed matrix storing some coordinates twice (cell = sum)
+        rows, cols, vals = [], [], []
+        for i, j in zip(*np.nonzero(D)):
+            v = D[i, j]
+            if np.isfinite(v) and abs(v) < 2 ** 50 and (v - 1.0) + 1.0 == v:
+                rows += [i, i]
+                cols += [j, j]
+                vals += [1.0, v - 1.0]
+            else:
+                rows.append(i), cols.append(j), vals.append(v)
+        coo = sp.coo_matrix((vals, (rows, cols)), shape=D.shape)
+        # build the compressed arrays by hand: scipy's own conversion would
+        # merge the duplicates
+        key = np.array(rows if fmt == 'csr' else cols, dtype=np.int64)
+        oth = np.array(cols if fmt == 'csr' else rows, dtype=np.int32)
+        order = np.argsort(key, kind='stable')
+        k = D.shape[0] if fmt == 'csr' else D.shape[1]
+        indptr = np.concatenate([[0], np.cumsum(np.bincount(
+            key, minlength=k))]).astype(np.int32)
+        cls = sp.csr_matrix if fmt == 'csr' else sp.csc_matrix
+        del coo
+        return cls((np.array(vals, dtype=float)[order], oth[order], indptr),
+                   shape=D.shape)
+    if D.any():
+        out['scipy-csr-duplicate-entries'] = lambda: (dup('csr'), {})
+        out['scipy-csc-duplicate-entries'] = lambda: (dup('csc'), {})
     for fmt in ('csr', 'csc', 'coo', 'lil', 'dok', 'bsr'):
         out['scipy-' + fmt] = lambda fmt=fmt: (sp.csr_matrix(D).asformat(
             fmt), {})
@@ -183,6 +228,8 @@ def run_family(ctx, r, index):
             ctx.count('form_bool')
         if nm == 'ndarray-int':
             ctx.count('form_int')
+        if nm.endswith('mixed-dtype'):
+            ctx.count('form_rows_of_mixed_dtype')
     for a, ta in tabs:
         for b, tb in tabs:
             if not (ta == tb) or (ta != tb):
